@@ -36,6 +36,29 @@ def findings():
     return fnd, fix
 
 
+def totals():
+    fnd, fix = findings()
+    nt = sum(nthm(p) for p in PROPS)
+    nl = 0
+    for f in glob.glob(os.path.join(V, "coq", "*", "*.v")):
+        if os.sep + "Gen" + os.sep in f or os.sep + "Cases" + os.sep in f:
+            continue
+        nl += sum(1 for _ in open(f))
+    ng = 0
+    for f in glob.glob(os.path.join(V, "harness", "*", "*.go")) + glob.glob(os.path.join(V, "harness", "*.tmpl")):
+        ng += sum(1 for _ in open(f))
+    ngen = sum(sum(1 for _ in open(f)) for f in glob.glob(os.path.join(V, "tools", "gen", "*.go")))
+    rp = os.path.join(V, "seeded", "RESULTS.json")
+    res = json.load(open(rp)) if os.path.exists(rp) else {}
+    seeds = [d for d in os.listdir(os.path.join(V, "seeded")) if os.path.exists(os.path.join(V, "seeded", d, "patch.diff"))]
+    det = [d for d in seeds if any(isinstance(x, dict) and x.get("detected") for x in res.get(d, {}).values())]
+    return ("Totals: %d properties claimed, %d theorems in `coq/Props` (all closed under the global context; `coqchk`: no axioms), %d lines of Coq "
+            "(models, proofs, statements), %d lines of Go harness injected by overlay, %d lines of source-to-Coq translators; %d defects repaired "
+            "in /repo by `fix:` commits, %d findings carried; %d independently written seeded changes filed, %d of them reported by the check "
+            "of their property (or of the property whose anchor they touch) with a concrete input." % (
+                len(PROPS), nt, nl, ng, ngen, sum(len(v) for v in fix.values()), sum(len(v) for v in fnd.values()), len(seeds), len(det)))
+
+
 def sec91():
     fnd, fix = findings()
     out = ["| Prop | theorems (of which `_refuted`) | Coq lines | harness entry points | generated tables | quick: cases / non-trivial / wall | findings carried | defects repaired in /repo |",
@@ -109,7 +132,7 @@ def main():
         c = t.index("### 9.3 ") if "### 9.3 " in t else t.index("## Appendix A.")
     e = t.index("## Appendix A.")
     t = t[:e] + "### 9.4 Defects repaired in /repo and findings carried (regenerated from known_findings.txt)\n\nEvery `fixed` row is one unguarded `fix:` commit in /repo (30 so far; the 247 baseline tests pass with all of them), its failing input is in `corpus/`, its reverse diff under `docs/mutations/` makes the property's check fail again. Every `finding` row is a genuine defect that is not repaired (dependency code, or no small safe patch): the check prints one `KNOWN-FINDING:` line for it and still fails on any other violation.\n\n" + sec94() + "\n\n" + t[e:]
-    t = (t[:a] + "### 9.1 Status per property\n\n(regenerated by `tools/mkstatus.py` from evidence/, Props/, known_findings.txt; MANIFEST.json is the authoritative list of claims)\n\n"
+    t = (t[:a] + "### 9.1 Status per property\n\n(regenerated by `tools/mkstatus.py` from evidence/, Props/, known_findings.txt; MANIFEST.json is the authoritative list of claims)\n\n" + totals() + "\n\n"
          + sec91() + "\n\n" + "### 9.2 Seeded changes and which checks catch them\n\n(regenerated by `tools/mkstatus.py` from seeded/*/meta.json and seeded/RESULTS.json, which `tools/seeded.py` writes: each patch is applied to the tree, the property's quick check is run, the patch is undone)\n\n"
          + sec92() + "\n\n" + t[c:])
     open(p, "w").write(t)
